@@ -20,9 +20,10 @@
    are [Fl] (C02/Fl.v).  Allocation failures (TSK_ERR_NO_MEMORY) are not modelled.
 
    Two variants of the code are modelled, selected by a [variant] record:
-     faithful : the code as it is in /repo  (this is what the correspondence compares with)
-     repaired : the two one-condition repairs proposed for findings F1 and F14
-   After a fix lands in /repo the integrator flips [code_variant] below. *)
+     repaired : the code as it is in /repo since the fix commits e4937b5 (F1) and c14733b (F14);
+                this is [code_variant], what the correspondence compares with
+     faithful : the PINNED pre-fix code (380c75d), kept only as a historical record for the
+                two [..._pinned_refuted] theorems *)
 From Coq Require Import List ZArith Bool Lia.
 From TskVerif Require Import Base.Common C02.Fl.
 Import ListNotations.
@@ -121,8 +122,9 @@ Record variant := mkVariant {
   fix_f1 : bool;    (* trailing loop of check_tree_integrity also tests used_edges[e] != 1 *)
   fix_f14 : bool    (* sequence_length must be finite (not only "not <= 0") *)
 }.
-Definition faithful := mkVariant false false.
-Definition repaired := mkVariant true true.
+Definition faithful := mkVariant false false.   (* pinned pre-fix code *)
+Definition repaired := mkVariant true true.     (* current code *)
+Definition pinned := faithful.
 
 (* ---- checked array access ----
    [aget]/[aset] are Base.Common's checked [get]/[set] guarded by an explicit bounds test, so
@@ -483,8 +485,8 @@ Definition check_integrity (v : variant) (options : opts) (t : tables) : res Z :
   do _ <- (if o_indexes o then check_index_integrity t else Ok tt);
   if o_trees o then check_tree_integrity v t else Ok 0.
 
-(* ---- the variant the correspondence uses (the code as it is in /repo) ---- *)
-Definition code_variant : variant := faithful.
+(* ---- the variant the correspondence uses (the code as it is in /repo, post-fix) ---- *)
+Definition code_variant : variant := repaired.
 
 (* tsk_treeseq_init: num_trees = check_integrity(tables, TSK_CHECK_TREES) *)
 Definition check (t : tables) : res Z := check_integrity code_variant opts_trees t.
